@@ -244,7 +244,7 @@ def run(ctx):
                 continue
             en = f.nodes[vs[0]]["name"]
             steps = [s for s in paths.stores(f, body) if s["path"] == walk]
-            ctx.check(o8, len(steps) == 1 and f.canon(steps[0]["rhs"], subst=False) == "%s->pred" % en, k + ":step", f.where(w), "back-trace continues with %s, not with the predecessor of the entry just fetched" % [f.canon(s["rhs"], subst=False) if s["rhs"] is not None else s["op"] for s in steps])
+            ctx.check(o8, len(steps) == 1 and steps[0]["rhs"] is not None and f.canon(steps[0]["rhs"], subst=False) == "%s->pred" % en, k + ":step", f.where(w), "back-trace continues with %s, not with the predecessor of the entry just fetched" % [f.canon(s["rhs"], subst=False) if s["rhs"] is not None else s["op"] for s in steps])
             # initial value of walk: the exit index
             wd = [i for i in f.walk(cond) if f.k(i) == "DeclRef" and f.nodes[i]["name"] == walk][0]
             inits = [form for (dn, form) in f.def_forms(wd, calls=True) if form is None or "->pred" not in form]
